@@ -773,6 +773,14 @@ class OptimizationProblem(EvaluationProblem):
                     attr_name = "_OptimizationProblem__is_linear"
                     val = val == "linear"
 
+                if attr_name == "ineq_tolerance":
+                    problem.tolerances.inequality = val
+                    continue
+
+                if attr_name == "eq_tolerance":
+                    problem.tolerances.equality = val
+                    continue
+
                 setattr(problem, attr_name, val)
 
             for name, functions in zip(
